@@ -409,7 +409,7 @@ impl<'r, R: ReadValue> Fields<'r, R> {
     /// purposes.
     pub fn new(reader: &'r mut R, context: Option<&'static str>) -> Self {
         Self {
-            reader: LimitReader::new(reader, u64::MAX),
+            reader: LimitReader::unbounded(reader),
             context,
             unconsumed_field: None,
         }
@@ -582,6 +582,44 @@ mod tests {
         assert!(matches!(err.kind(), ErrorKind::Eof));
         assert_eq!(err.context(), Some("SubMessage"));
         assert_eq!(err.field(), Some(1));
+    }
+
+    #[test]
+    fn test_field_exceeds_input() {
+        // Skipped field which is longer than the remaining input.
+        let mut buf = Vec::new();
+        buf.extend(FieldValue::Len(5).encode(1));
+        buf.extend([1, 2, 3, 4]);
+        assert!(read_fields(&buf).is_err());
+
+        // Embedded message which is longer than the remaining input.
+        let mut sub_msg = Vec::new();
+        sub_msg.extend(FieldValue::I32(1).encode(3));
+        sub_msg.extend(FieldValue::I32(2).encode(4));
+
+        let mut buf = Vec::new();
+        buf.extend(FieldValue::Len(sub_msg.len() as u64 + 1).encode(1));
+        buf.extend(sub_msg);
+
+        let mut reader = ValueReader::from_buf(buf);
+        let mut fields = Fields::new(&mut reader, Some("TestMessage"));
+        let mut sub_field = fields.next().unwrap().unwrap();
+        let mut sub_fields = sub_field.read_message(Some("SubMessage")).unwrap();
+        sub_fields.next().unwrap();
+        sub_fields.next().unwrap();
+        assert!(sub_fields.next().is_err());
+
+        // Packed repeated field which is longer than the remaining input.
+        let mut buf = Vec::new();
+        buf.extend(FieldValue::Len(3).encode(1));
+        buf.extend(encode_varint(2));
+        buf.extend(encode_varint(3));
+
+        let mut reader = ValueReader::from_buf(buf);
+        let mut fields = Fields::new(&mut reader, Some("TestMessage"));
+        let mut field = fields.next().unwrap().unwrap();
+        let vals: Result<Vec<_>, _> = field.read_repeated_int32().unwrap().collect();
+        assert!(vals.is_err());
     }
 
     #[test]
